@@ -272,7 +272,26 @@ func (e *Engine) resolveFrame(c *Contract, vars map[string]SVal, pkg *types.Pack
 		case m == "syncmaps":
 			fi.keys["SM:dom"], fi.keys["SM:tag"], fi.keys["SM:val"] = true, true, true
 		case strings.HasPrefix(m, "* except "):
-			unsupp("`modifies * except T` is only available on abstract / trusted contracts (it is not checked against a body)")
+			// whole Go heap except the fields of one struct type: those get frame obligations
+			tn := strings.TrimSpace(strings.TrimPrefix(m, "* except "))
+			i := strings.LastIndex(tn, ".")
+			if i < 0 {
+				unsupp("modifies * except pkg.Type")
+			}
+			T := e.lookupType(tn[:i], tn[i+1:], pkg)
+			if T == nil {
+				unsupp("modifies * except %s: type not found", tn)
+			}
+			fi.all = true
+			fi.except = append(fi.except, "F:"+typeKey(T)+".")
+			for _, l := range leaves(T) {
+				k := fieldKey(T, l.path)
+				noteLeaf(k, l)
+				if _, ok := heapSorts[k]; !ok {
+					heapSorts[k] = arrSort(SInt, l.sort)
+				}
+				fi.exceptKeys = append(fi.exceptKeys, k)
+			}
 		case m == "big":
 			fi.keys["BigVal"] = true
 		default:
@@ -386,6 +405,22 @@ func (e *Engine) frameObligations(c *Contract, key string, st *State, vars map[s
 			}
 			e.emit(&Obligation{Kind: "frame", Fn: key, Label: shortHeapKey(k), PC: st.pc, Goal: Eq(final, entry), Src: "ghost " + k[2:] + " is not listed in modifies and must be unchanged", Trace: st.trace})
 		}
+		// `* except T`: the fields of T stay as they were (for the objects that existed at entry)
+		for _, k := range fi.exceptKeys {
+			cur, inHeap := st.heap[k]
+			_, wasHavocked := st.hv[k]
+			if !inHeap && !wasHavocked {
+				if st.epoch != 0 {
+					// a plain `modifies *` callee (or a whole-heap loop) forgot this component
+					e.emit(&Obligation{Kind: "frame", Fn: key, Label: shortHeapKey(k), PC: st.pc, Unsupp: "the whole heap was havocked on this path; " + k + " cannot be shown unchanged (modifies * except)", Trace: st.trace})
+				}
+				continue // never touched on this path
+			}
+			if inHeap && cur == e.entry.heapGet(k, heapSorts[k]) {
+				continue
+			}
+			e.emit(&Obligation{Kind: "frame", Fn: key, Label: shortHeapKey(k), PC: st.pc, Goal: e.frameGoal(st, k), Src: "unchanged " + k + " (modifies * except)", Trace: st.trace})
+		}
 		for k := range st.hv {
 			if strings.HasPrefix(k, "G:") && !strings.HasPrefix(k, "G:$") && !fi.keys[k] {
 				if _, inHeap := st.heap[k]; !inHeap {
@@ -442,4 +477,13 @@ func orFrame(a, b *Frame) *Frame {
 		return a
 	}
 	return b
+}
+
+func sortedHv(m map[string]int) []string {
+	var ks []string
+	for k := range m {
+		ks = append(ks, k)
+	}
+	sort.Strings(ks)
+	return ks
 }
